@@ -6,6 +6,8 @@ import Compio.Model.RemoteJoin
 namespace Compio.RemoteJoin
 open Compio.TaskWord Compio.Gen
 
+/-! What every function regenerated from task/state.rs does on a word given by its fields. These
+are `rfl`: they stop checking when a mask in state.rs changes, which is intended. -/
 section gen
 variable (w : Word)
 @[simp, grind =] theorem g_new2 : TaskState.new 2 = ⟨false, false, true, false, false, false, true, 2⟩ := rfl
@@ -30,6 +32,11 @@ variable (w : Word)
 @[simp, grind =] theorem g_count : TaskState.count w = w.count := rfl
 end gen
 
+/-- The inductive invariant of the FIXED program (tested with a BFS over the reachable states with two
+waker ids before being proved). Groups: allocation (`uaf0`…`hLast`), the word's monotone flags against
+the program counters (`sect`…`completed`), future/result storage (`futStorage`…`resLe`), waker slot against
+HAS_WAKER and the snapshots the threads decided on (`acc`…`cmpSnap`, `ft`…`ed2`, `wakeSnap`), the waker-leak
+characterisation F040 (`hc2`…`lk4`), the handle's return value (`hret*`), delivery (`d1`…`d4`). -/
 structure Inv (s : RState) : Prop where
   uaf0 : s.uaf = 0
   bad0 : s.bad = 0
@@ -254,6 +261,12 @@ theorem reachable_of_trace {fixed : Bool} {ls : List Label} {s s' : RState} (hr 
 theorem reachable_of_run {fixed : Bool} {ls : List Label} {s' : RState} (h : run fixed init ls = some s') :
     Reachable fixed s' := reachable_of_trace Reachable.init (trace_of_run h)
 
+theorem trace_snoc {fixed : Bool} {ls : List Label} {s s' s'' : RState} {l : Label}
+    (h : Trace fixed s ls s') (hs : Step fixed s' l s'') : Trace fixed s (ls ++ [l]) s'' := by
+  induction h with
+  | nil => exact Trace.cons hs (Trace.nil _)
+  | cons h1 _ ih => exact Trace.cons h1 (ih hs)
+
 theorem reachable_iff_trace {fixed : Bool} {s : RState} :
     Reachable fixed s ↔ ∃ ls : List Label, Trace fixed init ls s := by
   constructor
@@ -262,11 +275,7 @@ theorem reachable_iff_trace {fixed : Bool} {s : RState} :
     | init => exact ⟨[], Trace.nil _⟩
     | step _ hs ih =>
       obtain ⟨ls, hl⟩ := ih
-      refine ⟨ls ++ [_], ?_⟩
-      clear * - hl hs
-      induction hl with
-      | nil => exact Trace.cons hs (Trace.nil _)
-      | cons h1 _ ih2 => exact Trace.cons h1 (ih2 hs)
+      exact ⟨ls ++ [_], trace_snoc hl hs⟩
   · rintro ⟨ls, hl⟩; exact reachable_of_trace Reachable.init hl
 
 /-! ## (i) exclusive access to the waker slot and to the future/result storage -/
@@ -446,31 +455,46 @@ theorem slot_dropped_at_dealloc_partial {s : RState} (h : Reachable true s) (hd 
   simp [this] at acc
   exact ⟨this, acc⟩
 
-/-! ## transitions that drop the future / poll it belong to the executor thread (any program, any state) -/
+/-! ## transitions that drop or poll the future belong to the executor thread (any program, any state) -/
 
+theorem touch_ghost (s : RState) : (touch s).futDrops = s.futDrops ∧ (touch s).polls = s.polls ∧
+    (touch s).resTaken = s.resTaken := by
+  unfold touch; split <;> simp
+
+/-- every transition that drops the future or polls it is a transition of the executor thread -/
 theorem future_dropped_by_executor_only {fixed : Bool} {s s' : RState} {l : Label}
     (hs : Step fixed s l s') (hne : s'.futDrops ≠ s.futDrops ∨ s'.polls ≠ s.polls) : l.actor = .E := by
   unfold Step at hs
+  have ht := touch_ghost s
   cases l <;> first
     | rfl
     | (exfalso
        simp only [step?] at hs
        split at hs
-       · simp only [touch, hLoop, hAfterFinishTrue, afterDecH, lastOf, dropSlotOf, dropResultOf] at hs
-         (repeat' (split at hs)) <;> (cases hs; simp at hne)
+       · try simp only [hLoop, hAfterFinishTrue, afterDecH, lastOf, dropSlotOf, dropResultOf] at hs
+         (repeat' (split at hs)) <;> (cases hs; simp [ht] at hne)
        · cases hs)
 
 /-- the output is taken only by the handle thread -/
 theorem result_taken_by_handle_only {fixed : Bool} {s s' : RState} {l : Label}
     (hs : Step fixed s l s') (hne : s'.resTaken ≠ s.resTaken) : l.actor = .H := by
   unfold Step at hs
+  have ht := touch_ghost s
   cases l <;> first
     | rfl
     | (exfalso
        simp only [step?] at hs
        split at hs
-       · simp only [touch, afterDecE, lastOf, dropSlotOf, dropResultOf, wakeSlotOf] at hs
-         (repeat' (split at hs)) <;> (cases hs; simp at hne)
+       · try simp only [afterDecE, lastOf, dropSlotOf, dropResultOf, wakeSlotOf, eAfterShared, eAfterFuture] at hs
+         (repeat' (split at hs)) <;> (cases hs; simp [ht] at hne)
        · cases hs)
+
+/-- a concrete run as a witness: the final state is reachable through that trace and satisfies `p` -/
+theorem run_witness {fixed : Bool} {ls : List Label} {p : RState → Bool}
+    (h : (run fixed init ls).any p = true) :
+    ∃ s : RState, Trace fixed init ls s ∧ Reachable fixed s ∧ p s = true := by
+  cases hr : run fixed init ls with
+  | none => simp [hr] at h
+  | some s => exact ⟨s, trace_of_run hr, reachable_of_run hr, by simpa [hr] using h⟩
 
 end Compio.RemoteJoin
